@@ -1300,7 +1300,7 @@ def guards():
             for sub in items:
                 visit(sub, stack)
         visit(tree, [])
-    rows = sorted(set(rows))
+    rows = sorted(rows)          # a multiset: dropping one of two identical tests changes the table
     return guards_lean(rows, "Gen", "GENERATED by tools/pyexpr.py from /repo/src/hmf — do not edit.", ctor_rows), rows
 
 
